@@ -162,4 +162,19 @@ theorem arz_oncone_linear (times : List ℝ) (lam E em psi dist n t0 : ℝ) (hl 
     · simp [Arr.toList, Arr.map, Arr.diff, Arr.append, Arr.ofList, tab_length]
   rw [← addL_map_mul, zerosL_map_mul]
 
+/-- on the cone every shower (EM and hadronic) is linear in the energy, hence so is their sum -/
+theorem arz_oncone_linear_all (times : List ℝ) (lam E em had psi dist n t0 : ℝ) (hl : lam ≠ 0)
+    (hpsi : Rabs psi = thetaC n) :
+    arzValues times (lam * E) em had psi dist n t0
+      = (arzValues times E em had psi dist n t0).map (fun v => lam * v) := by
+  unfold arzValues
+  simp only []
+  have hc : Rabs (Rabs psi - Racos (1 / n)) ≤ onconeRange := by
+    rw [hpsi]; unfold thetaC; simp only [sub_self, Rabs, abs_zero]; exact onconeRange_nonneg
+  rw [mul_assoc, mul_assoc,
+    showerSignal_oncone_linear times lam (E * em) emProfile emRAC (Rabs psi) dist n t0 hl
+      (fun t e => emRAC_linear lam t e) hc,
+    showerSignal_oncone_linear times lam (E * had) hadProfile hadRAC (Rabs psi) dist n t0 hl
+      (fun t e => hadRAC_linear lam t e) hc, addL_map_mul]
+
 end PyrexR
